@@ -67,6 +67,7 @@ class Entry:
         self.key = key
         self.order = order       # order of the lines after I:
         self.sym = sym           # None | ('key', digit index from the right, term) | ('ev', idx, term)
+        self.truth = None        # ground truth "is a keyboard" for realistic complete entries
 
     def lines(self):
         out = ['I: Bus=0011 Vendor=0001 Product=0001 Version=ab41']
@@ -100,6 +101,8 @@ class Entry:
 
     def describe(self, model=None):
         d = {'name': self.name, 'sysfs': self.sysfs, 'ev': self.ev, 'key': self.key, 'order': ''.join(self.order)}
+        if self.truth is not None:
+            d['truth'] = self.truth
         if self.sym is not None:
             d['symbolic_digit'] = '%s mask, hex digit %d from the right' % (self.sym[0], self.sym[1])
         return d
@@ -139,7 +142,13 @@ def gen_entry(it, idx, stage):
         order = pick([list('NPSUHEK'), list('NPSUHKE'), list('NSK'), list('SNEK'), list('NPUHEK'), list('NSEJK'), list('KNSE'), list('NSHK')])
         if it.choose(2) == 1:
             ev = None
-        return Entry(name, sysfs, ev, key, order)
+        e = Entry(name, sysfs, ev, key, order)
+        # ground truth for realistic entries whose S: and N: lines precede the B: KEY= line (as the kernel prints them)
+        if 'S' in order and order.index('S') < order.index('K') and ('N' not in order or order.index('N') < order.index('K')):
+            e.truth = {'kbd': True, 'noname-kbd': True, 'virtual-kbd': True, 'mouse-kbdlike': False, 'power': False}[kind]
+            if kind in ('kbd', 'virtual-kbd') and 'N' not in order:
+                e.truth = True
+        return e
     if stage == 'names':
         name = pick(NAMES)
         key = pick([KBD_KEYS, MOUSE_KEYS_SCROLL, POWER_KEYS, FEW_KEYS])
@@ -213,6 +222,9 @@ def c16_path(it, stage, nent):
         alone[e.sysfs] = (len(a1) == 1, [it.decide(x[2]) for x in a2] == [True])
         if alone[e.sysfs][0] != alone[e.sysfs][1]:
             raise Violation('C16', 'the two extractors classify an isolated entry differently', {'entry': e.describe()})
+        if e.truth is not None and alone[e.sysfs][0] != e.truth:
+            raise Violation('C16', 'a realistic %s entry is classified as %s' % ('keyboard' if e.truth else 'non-keyboard', 'not a keyboard' if e.truth else 'a keyboard'),
+                            {'entry': e.describe()})
         inlist = e.sysfs in kb1
         if inlist != alone[e.sysfs][0]:
             raise Violation('C16', 'the classification of an entry depends on its neighbours / position', {'entry': e.describe(), 'alone': alone[e.sysfs][0], 'in_list': inlist})
@@ -346,6 +358,8 @@ def native_judge(native, case):
         alone[d['sysfs']] = a1
         if a1 != a2:
             return 'the two extractors classify the isolated entry %r differently' % d['name']
+        if d.get('truth') is not None and a1 != d['truth']:
+            return 'the realistic entry %r (%s) is classified as %s' % (d['name'], 'a keyboard' if d['truth'] else 'not a keyboard', 'a keyboard' if a1 else 'not a keyboard')
         if (d['sysfs'] in kb1) != a1:
             return 'entry %r is %sa keyboard on its own but %s in this list' % (d['name'], '' if a1 else 'not ', 'one' if d['sysfs'] in kb1 else 'not one')
     expected = []
@@ -430,7 +444,7 @@ def check(prop, tier, seed):
         'explanation': 'extract_keyboards_from_proc_bus_input_devices, extract_input_devices_from_proc_bus_input_devices, parse_mask_hex, list_keyboards, list_input_devices, flag_excluded, '
                        'flag_excluded_input_devices, filter_devices_verbose executed from MIR on /proc/bus/input/devices texts assembled from realistic entries; symbolic: which lines an entry has and in which order, '
                        'entry order, the exclude pattern set, and (stage masks) the hex digit of the KEY mask that holds ENTER/A and the hex digit of the EV mask that holds the LED bit (solver-decided thresholds); '
-                       'oracle: relational (agreement, neighbour/order independence, selection rule for both discovery paths)',
+                       'oracle: relational (agreement, neighbour/order independence, selection rule for both discovery paths) plus ground truth for the realistic complete entries (AT keyboard, keyboard-like mouse without LEDs, power button)',
         'evaluations': stats['paths'], 'distinct_nontrivial': stats['paths'],
         'rule': 'one evaluation = one path = one derivation of the entry grammar x solver-decided class of the symbolic hex digits; distinct by construction',
         'samples': [{'stage': 'structure', 'entries': [Entry(NAMES[0], SYSFS[0], '120013', KBD_KEYS, list('NPSUHEK')).describe(), Entry(NAMES[2], SYSFS[1], None, MOUSE_KEYS_SCROLL, list('NSK')).describe()], 'excludes': ['*Mouse*']}],
